@@ -3,6 +3,8 @@ import Driver.Fk
 import Driver.ModelMode
 import Driver.FramesMode
 import Driver.RatMode
+import Driver.MkMode
+import Driver.IntMode
 /-! `osmt-model <mode> <file>`: line-protocol driver around the executable models and kernels. -/
 def main (args : List String) : IO UInt32 := do
   match args with
@@ -20,6 +22,17 @@ def main (args : List String) : IO UInt32 := do
     for l in txt.splitOn "\n" do
       if l.trimAscii.toString != "" then out := out ++ Driver.ratLine l ++ "\n"
     IO.print out
+    return 0
+  | ["int", path] =>
+    let txt ← IO.FS.readFile path
+    let mut out := ""
+    for l in txt.splitOn "\n" do
+      if l.trimAscii.toString != "" then out := out ++ Driver.intLine l ++ "\n"
+    IO.print out
+    return 0
+  | ["mk", path] =>
+    let txt ← IO.FS.readFile path
+    for l in Driver.runMk (txt.splitOn "\n") do IO.println l
     return 0
   | ["frames", path] =>
     let txt ← IO.FS.readFile path
